@@ -292,16 +292,24 @@ Proof.
         destruct (rd_set_read_cb t h0) as [| |s h1] eqn:E; simpl in H; try discriminate;
         apply set_read_cb_inv in E; [|assumption]
     end).
-  eapply open1_inv; eauto.
+  unfold bind in H.
+  match type of H with
+  | match op_query t ?f RM ?h0 ARCHIVE_OK with _ => _ end = _ =>
+      destruct (op_query t f RM h0 ARCHIVE_OK) as [| |s6 h6] eqn:E6; try discriminate;
+      apply query_inv in E6; [|assumption]
+  end.
+  destruct (negb (s6 =? ARCHIVE_OK)); [inversion H; subst; exact E6|eapply open1_inv; eauto].
 Qed.
 
 Lemma pair_inv : forall t f1 f2 m h st h', inv h -> op_pair t f1 f2 m h = RRet st h' -> inv h'.
 Proof.
-  intros t f1 f2 m h st h' Hi H. unfold op_pair in H.
-  destruct (op_query t f1 m h ARCHIVE_OK) as [| |s1 h1] eqn:E1; simpl in H; try discriminate.
+  intros t f1 f2 m h st h' Hi H. unfold op_pair, bind in H.
+  destruct (op_query t f1 m h ARCHIVE_OK) as [| |s1 h1] eqn:E1; try discriminate.
   apply query_inv in E1; [|assumption].
-  destruct (op_query t f2 m h1 ARCHIVE_OK) as [| |s2 h2] eqn:E2; simpl in H; try discriminate.
-  apply query_inv in E2; [|assumption]. inversion H. subst. exact E2.
+  destruct (negb (s1 =? ARCHIVE_OK)); [inversion H; subst; exact E1|].
+  destruct (op_query t f2 m h1 ARCHIVE_OK) as [| |s2 h2] eqn:E2; try discriminate.
+  apply query_inv in E2; [|assumption].
+  destruct (negb (s2 =? ARCHIVE_OK)); inversion H; subst; exact E2.
 Qed.
 
 Lemma block_into_inv : forall t m h blk st h', inv h -> rd_block_into t m h blk = RRet st h' -> inv h'.
@@ -338,6 +346,11 @@ Proof.
       apply pad_copy_same in Ep. destruct Ep as [Ep1 Ep2].
       eapply IH; [|exact H]. eapply inv_ext; eauto.
 Qed.
+
+Lemma forget_stale_same : forall h, hmagic (rd_forget_stale h) = hmagic h /\ hstate (rd_forget_stale h) = hstate h /\
+  r_filter (rd (rd_forget_stale h)) = r_filter (rd h) /\ r_opens (rd (rd_forget_stale h)) = r_opens (rd h) /\
+  r_closes (rd (rd_forget_stale h)) = r_closes (rd h).
+Proof. intros. unfold rd_forget_stale. destruct (hstate h =? ARCHIVE_STATE_DATA)%N; repeat split; reflexivity. Qed.
 
 Lemma close_filters_same : forall h rc, hmagic (snd (rd_close_filters h rc)) = hmagic h /\
   hstate (snd (rd_close_filters h rc)) = hstate h.
@@ -396,7 +409,8 @@ Proof.
   - eapply next_header_inv in H; [tauto|assumption|assumption].
   - intros _. eapply next_header_inv in H; [tauto|assumption|assumption].
   - unfold rd_data_block in H. eapply query_inv; eauto.
-  - unfold rd_read_data in H. eapply read_data_loop_inv; eauto.
+  - unfold rd_read_data in H. eapply read_data_loop_inv; [|exact H].
+    destruct (forget_stale_same h) as [A [B _]]. eapply inv_ext; eauto.
   - unfold rd_read_data_obs in H. destruct reach.
     + change (op_query t "_archive_read_data_block" magic h r = RRet st h') in H. eapply query_inv; eauto.
     + inversion H; subst; exact Hi.
@@ -408,6 +422,7 @@ Proof.
   - eapply free_inv; eauto.
   - unfold wr_set_format in H. eapply wc_other_inv in H; [tauto|assumption|exact W1|exact W2].
   - unfold wr_open in H. eapply wc_other_inv in H; [tauto|assumption|exact W1|exact W2].
+  - unfold wr_open_memory in H. eapply wc_other_inv in H; [tauto|assumption|exact W1|exact W2].
   - unfold wr_header in H. eapply wc_other_inv in H; [tauto|assumption|exact W1|exact W2].
   - unfold wr_data in H. eapply wc_other_inv in H; [tauto|assumption|exact W1|exact W2].
   - unfold wr_finish_entry in H. eapply wc_other_inv in H; [tauto|assumption|exact W1|exact W2].
@@ -702,16 +717,24 @@ Proof.
         destruct (rd_set_read_cb t h0) as [| |s h1] eqn:E; simpl in H; try discriminate;
         apply set_read_cb_alive in E; [|assumption]
     end).
-  eapply open1_alive; eauto.
+  unfold bind in H.
+  match type of H with
+  | match op_query t ?f RM ?h0 ARCHIVE_OK with _ => _ end = _ =>
+      destruct (op_query t f RM h0 ARCHIVE_OK) as [| |s6 h6] eqn:E6; try discriminate;
+      apply query_alive in E6; [|assumption]
+  end.
+  destruct (negb (s6 =? ARCHIVE_OK)); [inversion H; subst; exact E6|eapply open1_alive; eauto].
 Qed.
 
 Lemma pair_alive : forall t f1 f2 m h st h', alive_ok h -> op_pair t f1 f2 m h = RRet st h' -> alive_ok h'.
 Proof.
-  intros t f1 f2 m h st h' Hi H. unfold op_pair in H.
-  destruct (op_query t f1 m h ARCHIVE_OK) as [| |s1 h1] eqn:E1; simpl in H; try discriminate.
+  intros t f1 f2 m h st h' Hi H. unfold op_pair, bind in H.
+  destruct (op_query t f1 m h ARCHIVE_OK) as [| |s1 h1] eqn:E1; try discriminate.
   apply query_alive in E1; [|assumption].
-  destruct (op_query t f2 m h1 ARCHIVE_OK) as [| |s2 h2] eqn:E2; simpl in H; try discriminate.
-  apply query_alive in E2; [|assumption]. inversion H. subst. exact E2.
+  destruct (negb (s1 =? ARCHIVE_OK)); [inversion H; subst; exact E1|].
+  destruct (op_query t f2 m h1 ARCHIVE_OK) as [| |s2 h2] eqn:E2; try discriminate.
+  apply query_alive in E2; [|assumption].
+  destruct (negb (s2 =? ARCHIVE_OK)); inversion H; subst; exact E2.
 Qed.
 
 Lemma data_skip_alive : forall t h r st h', alive_ok h -> rd_data_skip t h r = RRet st h' -> alive_ok h'.
@@ -874,7 +897,8 @@ Proof.
     + left. eapply open_memory_alive; eauto.
     + left. eapply next_header_alive; eauto.
     + left. unfold rd_data_block in H. eapply query_alive; eauto.
-    + left. unfold rd_read_data in H. eapply read_data_loop_alive; eauto.
+    + left. unfold rd_read_data in H. eapply read_data_loop_alive; [|exact H].
+      destruct (forget_stale_same h) as [A [B [C [D E]]]]. eapply alive_move; eauto.
     + left. unfold rd_read_data_obs in H. destruct reach.
       * change (op_query t "_archive_read_data_block" magic h r = RRet st h') in H. eapply query_alive; eauto.
       * inversion H; subst; exact Ha.
@@ -886,6 +910,7 @@ Proof.
     + eapply free_P; eauto.
     + unfold wr_set_format in H. eapply wc_alive_other_P; [exact Ha|exact W1|exact H].
     + unfold wr_open in H. eapply wc_alive_other_P; [exact Ha|exact W1|exact H].
+    + unfold wr_open_memory in H. eapply wc_alive_other_P; [exact Ha|exact W1|exact H].
     + unfold wr_header in H. eapply wc_alive_other_P; [exact Ha|exact W1|exact H].
     + unfold wr_data in H. eapply wc_alive_other_P; [exact Ha|exact W1|exact H].
     + unfold wr_finish_entry in H. eapply wc_alive_other_P; [exact Ha|exact W1|exact H].
@@ -909,14 +934,15 @@ Proof.
       try (exfalso; eapply wc_dead; [exact Hm|exact H]; fail).
     + inversion H; subst; exact Hr.
     + unfold op_fail in H. inversion H. subst. eapply released_move; eauto.
-    + exfalso. unfold op_pair, op_query in H.
-      destruct (with_check t f1 magic h (fun h0 => RRet ARCHIVE_OK h0)) as [| |s1 h1] eqn:E; simpl in H; try discriminate.
+    + exfalso. unfold op_pair, op_query, bind in H.
+      destruct (with_check t f1 magic h (fun h0 => RRet ARCHIVE_OK h0)) as [| |s1 h1] eqn:E; try discriminate.
       eapply wc_dead; eauto.
     + exfalso. unfold rd_open_memory, op_query in H.
       destruct (with_check t "archive_read_set_open_callback" RM h (fun h0 => RRet ARCHIVE_OK h0)) as [| |s1 h1] eqn:E;
         simpl in H; try discriminate.
       eapply wc_dead; eauto.
-    + unfold rd_read_data in H. eapply read_data_loop_released; eauto.
+    + unfold rd_read_data in H. eapply read_data_loop_released; [|exact H].
+      destruct (forget_stale_same h) as [A [B [C [D E]]]]. eapply released_move; eauto.
     + unfold rd_read_data_obs in H. destruct reach.
       * exfalso. eapply wc_dead; eauto.
       * inversion H; subst; exact Hr.
@@ -954,82 +980,405 @@ Proof.
   - split; [intros _; split; assumption|lia].
 Qed.
 
-(* ------------------------------------------------------------------ writer *)
-Definition wbal (h : handle) : Prop :=
-  w_opens (wr h) = (w_closes (wr h) + (if (w_filter (wr h) =? 1)%N then 1 else 0))%N.
+(* ------------------------------------------------------------------ frame: what an operation that
+   does not belong to the handle's kind (or has no kind) can do to a handle *)
+Definition frame (h h' : handle) : Prop :=
+  hmagic h' = hmagic h /\ wr h' = wr h /\ fixups h' = fixups h /\ dw_fd h' = dw_fd h /\
+  (hstate h' = hstate h \/ hstate h' = ARCHIVE_STATE_FATAL).
 
-(* free of a writer that has not failed closes the client exactly once more if it is still open *)
-Theorem write_free_releases_when_not_failed : forall t h a b c d st h',
-  site_accepts_all t ("_archive_write_free"%string, WM) = true ->
-  site_accepts_all t ("_archive_write_close"%string, WM) = true ->
-  hmagic h = WM -> valid_state (hstate h) -> hstate h <> ARCHIVE_STATE_FATAL -> wbal h ->
-  ((hstate h = ARCHIVE_STATE_NEW \/ hstate h = ARCHIVE_STATE_CLOSED) -> w_filter (wr h) <> 1%N) ->
-  wr_free t h a b c d = RRet st h' ->
-  hmagic h' = 0%N /\ w_filter (wr h') = 0%N /\ w_closes (wr h') = w_opens (wr h').
+Lemma frame_refl : forall h, frame h h.
+Proof. intros. unfold frame. repeat split; try reflexivity. left; reflexivity. Qed.
+
+Lemma frame_fatal : forall h, frame h (set_state h ARCHIVE_STATE_FATAL).
+Proof. intros. unfold frame. simpl. repeat split; try reflexivity. right; reflexivity. Qed.
+
+Lemma frame_trans : forall a b c, frame a b -> frame b c -> frame a c.
 Proof.
-  intros t h a b c d st h' Hf Hc Hm Hv Hnf Hb Hj H. unfold wr_free in H.
-  rewrite (wc_accepted _ _ _ _ _ Hf Hm WM_is_handle Hv) in H.
-  apply N.eqb_neq in Hnf. rewrite Hnf in H. simpl in H.
-  unfold wr_close in H. rewrite (wc_accepted _ _ _ _ _ Hc Hm WM_is_handle Hv) in H.
-  unfold wbal in Hb.
-  destruct ((hstate h =? ARCHIVE_STATE_NEW)%N || (hstate h =? ARCHIVE_STATE_CLOSED)%N) eqn:E.
-  - simpl in H. inversion H. subst. clear H.
-    assert (Hne : w_filter (wr h) <> 1%N).
-    { apply Hj. apply orb_true_iff in E. destruct E as [E|E]; apply N.eqb_eq in E; tauto. }
-    apply N.eqb_neq in Hne. rewrite Hne in Hb.
-    unfold wr_filters_free, kill. destruct (w_filter (wr h) =? 0)%N eqn:E0; simpl.
-    + apply N.eqb_eq in E0. split; [reflexivity|]. split; [exact E0|lia].
-    + split; [reflexivity|]. split; [reflexivity|lia].
-  - unfold wr_filters_close in H. destruct (w_filter (wr h) =? 1)%N eqn:E1.
-    + simpl in H. destruct (hstate h =? ARCHIVE_STATE_FATAL)%N; simpl in H; inversion H; subst; clear H;
-        unfold wr_filters_free, kill; simpl;
-        (destruct (c =? ARCHIVE_OK); simpl; (split; [reflexivity|]; split; [reflexivity|lia])).
-    + simpl in H. destruct (hstate h =? ARCHIVE_STATE_FATAL)%N; simpl in H; inversion H; subst; clear H;
-        unfold wr_filters_free, kill; simpl;
-        (destruct (w_filter (wr h) =? 0)%N eqn:E0; simpl;
-         [apply N.eqb_eq in E0; split; [reflexivity|]; split; [exact E0|lia]
-         |split; [reflexivity|]; split; [reflexivity|lia]]).
+  intros a b c [A1 [A2 [A3 [A4 A5]]]] [B1 [B2 [B3 [B4 B5]]]]. unfold frame.
+  rewrite B1, B2, B3, B4, A1, A2, A3, A4. repeat split; try reflexivity.
+  destruct B5 as [B5|B5]; [rewrite B5; exact A5|right; exact B5].
 Qed.
 
-(* ------------------------------------------------------------------ disk writer *)
-Definition dw_sites_ok (t : list site) : bool :=
-  site_accepts_all t ("_archive_write_disk_free"%string, WDM) &&
-  match site_mask t "_archive_write_disk_close" WDM, site_mask t "_archive_write_disk_finish_entry" WDM with
-  | Some m1, Some m2 => has_bit ARCHIVE_STATE_HEADER m1 && has_bit ARCHIVE_STATE_DATA m1 &&
-                        has_bit ARCHIVE_STATE_HEADER m2 && has_bit ARCHIVE_STATE_DATA m2
-  | _, _ => false
+Lemma frame_rd : forall h r, frame h (set_rd h r).
+Proof. intros. unfold frame. simpl. repeat split; try reflexivity. left; reflexivity. Qed.
+
+(* a check whose body keeps the frame *)
+Lemma wc_frame : forall t f m h body st h',
+  (forall st h', body h = RRet st h' -> frame h h') ->
+  with_check t f m h body = RRet st h' -> frame h h'.
+Proof.
+  intros t f m h body st h' Hb H. apply with_check_ret in H. destruct H as [[_ Hh]|[_ [_ H]]].
+  - subst. apply frame_fatal.
+  - eapply Hb; eauto.
+Qed.
+
+(* a check for another kind, on a live handle of kind M or on a freed one *)
+Lemma wc_foreign : forall t f m h body st h' M,
+  (hmagic h = M /\ m <> M) \/ hmagic h = 0%N ->
+  with_check t f m h body = RRet st h' -> frame h h'.
+Proof.
+  intros t f m h body st h' M Hk H. destruct Hk as [[Hm Hne]|Hd].
+  - apply with_check_ret in H. destruct H as [[_ Hh]|[Hm' _]].
+    + subst. apply frame_fatal.
+    + exfalso. congruence.
+  - exfalso. eapply wc_dead; eauto.
+Qed.
+
+Lemma query_frame : forall t f m h r st h', op_query t f m h r = RRet st h' -> frame h h'.
+Proof. intros. unfold op_query in H. eapply wc_frame; [|exact H]. intros s0 h0 Hb. inversion Hb. apply frame_refl. Qed.
+
+Lemma pair_frame : forall t f1 f2 m h st h', op_pair t f1 f2 m h = RRet st h' -> frame h h'.
+Proof.
+  intros t f1 f2 m h st h' H. unfold op_pair, bind in H.
+  destruct (op_query t f1 m h ARCHIVE_OK) as [| |s1 h1] eqn:E1; try discriminate.
+  apply query_frame in E1.
+  destruct (negb (s1 =? ARCHIVE_OK)); [inversion H; subst; exact E1|].
+  destruct (op_query t f2 m h1 ARCHIVE_OK) as [| |s2 h2] eqn:E2; try discriminate.
+  apply query_frame in E2.
+  destruct (negb (s2 =? ARCHIVE_OK)); inversion H; subst; eapply frame_trans; eauto.
+Qed.
+
+Lemma block_into_frame : forall t m h blk st h', rd_block_into t m h blk = RRet st h' -> frame h h'.
+Proof.
+  intros t m h [[r sz] off] st h' H. unfold rd_block_into in H. eapply wc_frame; [|exact H].
+  intros s0 h0 Hb. inversion Hb. apply frame_rd.
+Qed.
+
+Lemma pad_copy_frame : forall h s got h2 s2 g2, rd_pad_copy h s got = (h2, s2, g2) -> frame h h2.
+Proof. intros. unfold rd_pad_copy in H. inversion H. apply frame_rd. Qed.
+
+Lemma read_data_loop_frame : forall fuel t m h s got bl st h',
+  rd_read_data_loop fuel t m h s got bl = RRet st h' -> frame h h'.
+Proof.
+  induction fuel as [|k IH]; intros t m h s got bl st h' H; simpl in H.
+  - inversion H. apply frame_refl.
+  - destruct (s <=? 0); [inversion H; apply frame_refl|].
+    destruct ((r_off (rd h) =? r_out (rd h)) && (r_rem (rd h) =? 0)).
+    + unfold bind in H.
+      destruct (rd_block_into t m h match bl with [] => (ARCHIVE_EOF, 0, r_off (rd h)) | b :: _ => b end)
+        as [| |s1 h1] eqn:E; try discriminate.
+      apply block_into_frame in E.
+      destruct (s1 =? ARCHIVE_EOF); [inversion H; subst; exact E|].
+      destruct (s1 <? ARCHIVE_OK); [inversion H; subst; exact E|].
+      destruct (r_off (rd h1) <? r_out (rd h1)); [inversion H; subst; exact E|].
+      unfold rd_pad_copy in H. apply IH in H.
+      eapply frame_trans; [exact E|]. eapply frame_trans; [apply frame_rd|exact H].
+    + destruct (r_off (rd h) <? r_out (rd h)); [inversion H; apply frame_refl|].
+      unfold rd_pad_copy in H. apply IH in H. eapply frame_trans; [apply frame_rd|exact H].
+Qed.
+
+Lemma forget_stale_frame : forall h, frame h (rd_forget_stale h).
+Proof. intros. unfold rd_forget_stale. destruct (hstate h =? ARCHIVE_STATE_DATA)%N; [apply frame_refl|apply frame_rd]. Qed.
+
+(* the kind an operation belongs to; None = usable on every kind *)
+Definition op_kind (o : op) : option N :=
+  match o with
+  | OQuery _ _ _ | ONoCheck _ | OFail | OPair _ _ _ | RReadData _ _ | RReadDataObs _ _ _ => None
+  | RSetReadCb | ROpen1 _ _ _ | ROpenMem _ _ _ | RNextHeader _ _ | RDataBlock _ | RDataSkip _
+  | RSeekData _ _ | RClose _ | RFree _ => Some RM
+  | WSetFormat _ _ | WOpen _ _ | WOpenMem _ _ | WHeader _ _ _ | WData _ | WFinishEntry _
+  | WClose _ _ _ | WFree _ _ _ _ => Some WM
+  | DROpen _ | DRNextHeader _ _ | DRDataBlock _ | DRClose | DRFree => Some RDM
+  | DWHeader _ _ _ _ _ _ | DWData _ | DWDataBlock _ | DWFinishEntry _ _ | DWClose _ _ | DWFree _ _ => Some WDM
+  | MFree => Some ARCHIVE_MATCH_MAGIC
   end.
 
-(* free of a disk writer that has not failed applies and releases every queued fix-up *)
-Theorem disk_write_free_releases_when_not_failed : forall t h r st h', dw_sites_ok t = true ->
-  hmagic h = WDM -> hstate h = ARCHIVE_STATE_HEADER \/ hstate h = ARCHIVE_STATE_DATA ->
-  dw_free t h r = RRet st h' -> hmagic h' = 0%N /\ fixups h' = 0%N.
+Definition foreign_to (M : N) (o : op) : Prop :=
+  match op_kind o with None => True | Some m => m <> M end.
+
+Lemma open_memory_foreign : forall t h a b c st h' M, (hmagic h = M /\ RM <> M) \/ hmagic h = 0%N ->
+  rd_open_memory t h a b c = RRet st h' -> frame h h'.
 Proof.
-  intros t h r st h' Ht Hm Hs H. unfold dw_sites_ok in Ht. apply andb_true_iff in Ht. destruct Ht as [Hf Ht].
-  destruct (site_mask t "_archive_write_disk_close" WDM) as [m1|] eqn:E1; [|discriminate].
-  destruct (site_mask t "_archive_write_disk_finish_entry" WDM) as [m2|] eqn:E2; [|discriminate].
-  repeat (apply andb_true_iff in Ht; destruct Ht as [Ht ?]).
-  assert (Hv : valid_state (hstate h)). { destruct Hs as [Hs|Hs]; rewrite Hs; [apply valid_header|apply valid_data]. }
-  assert (L1 : N.land (hstate h) m1 <> 0%N). { destruct Hs as [Hs|Hs]; rewrite Hs; apply has_bit_true; assumption. }
-  assert (L2 : N.land (hstate h) m2 <> 0%N). { destruct Hs as [Hs|Hs]; rewrite Hs; apply has_bit_true; assumption. }
-  unfold dw_free in H. rewrite (wc_accepted _ _ _ _ _ Hf Hm WDM_is_handle Hv) in H.
-  unfold dw_close in H.
-  rewrite (with_check_legal _ _ _ _ _ _ E1) in H; [|rewrite Hm; apply WDM_is_handle|exact Hm|exact L1].
-  unfold dw_finish_entry in H.
-  rewrite (with_check_legal _ _ _ _ _ _ E2) in H; [|rewrite Hm; apply WDM_is_handle|exact Hm|exact L2].
-  destruct (has_bit (hstate h) ARCHIVE_STATE_HEADER); simpl in H; inversion H; subst; split; reflexivity.
+  intros t h a b c st h' M Hk H. unfold rd_open_memory in H.
+  (* the first setter already answers for the whole chain: it can only fail *)
+  destruct (op_query t "archive_read_set_open_callback" RM h ARCHIVE_OK) as [| |s1 h1] eqn:E1; simpl in H; try discriminate.
+  assert (K1 : (hmagic h1 = M /\ RM <> M) \/ hmagic h1 = 0%N).
+  { unfold op_query in E1. destruct Hk as [[Hm Hne]|Hd].
+    - apply with_check_ret in E1. destruct E1 as [[_ Hh]|[Hm' _]]; [rewrite Hh; simpl; left; split; [exact Hm|exact Hne]|exfalso; congruence].
+    - exfalso. eapply wc_dead; eauto. }
+  apply query_frame in E1.
+  destruct (rd_set_read_cb t h1) as [| |s2 h2] eqn:E2; simpl in H; try discriminate.
+  assert (F2 : frame h1 h2). { unfold rd_set_read_cb in E2. eapply wc_foreign; eauto. }
+  assert (K2 : (hmagic h2 = M /\ RM <> M) \/ hmagic h2 = 0%N).
+  { destruct F2 as [A _]. rewrite A. exact K1. }
+  destruct (op_query t "archive_read_set_seek_callback" RM h2 ARCHIVE_OK) as [| |s3 h3] eqn:E3; simpl in H; try discriminate.
+  apply query_frame in E3.
+  assert (K3 : (hmagic h3 = M /\ RM <> M) \/ hmagic h3 = 0%N). { destruct E3 as [A _]. rewrite A. exact K2. }
+  destruct (op_query t "archive_read_set_skip_callback" RM h3 ARCHIVE_OK) as [| |s4 h4] eqn:E4; simpl in H; try discriminate.
+  apply query_frame in E4.
+  assert (K4 : (hmagic h4 = M /\ RM <> M) \/ hmagic h4 = 0%N). { destruct E4 as [A _]. rewrite A. exact K3. }
+  destruct (op_query t "archive_read_set_close_callback" RM h4 ARCHIVE_OK) as [| |s5 h5] eqn:E5; simpl in H; try discriminate.
+  apply query_frame in E5.
+  assert (K5 : (hmagic h5 = M /\ RM <> M) \/ hmagic h5 = 0%N). { destruct E5 as [A _]. rewrite A. exact K4. }
+  unfold bind in H.
+  destruct (op_query t "archive_read_set_callback_data2" RM h5 ARCHIVE_OK) as [| |s6 h6] eqn:E6; try discriminate.
+  apply query_frame in E6.
+  assert (K6 : (hmagic h6 = M /\ RM <> M) \/ hmagic h6 = 0%N). { destruct E6 as [A _]. rewrite A. exact K5. }
+  assert (F : frame h h6). { repeat (eapply frame_trans; [eassumption|]). apply frame_refl. }
+  destruct (negb (s6 =? ARCHIVE_OK)); [inversion H; subst; exact F|].
+  unfold rd_open1 in H. eapply frame_trans; [exact F|]. eapply wc_foreign; eauto.
 Qed.
 
-(* ... but on a failed disk writer close refuses to run, so free releases nothing *)
-Theorem disk_write_free_on_failed_keeps_fixups : forall t h r mask,
-  site_accepts_all t ("_archive_write_disk_free"%string, WDM) = true ->
-  site_mask t "_archive_write_disk_close" WDM = Some mask -> has_bit mask ARCHIVE_STATE_FATAL = false ->
-  hmagic h = WDM -> hstate h = ARCHIVE_STATE_FATAL ->
-  dw_free t h r = RRet ARCHIVE_FATAL (kill h).
+(* an operation of another kind (or of no kind) keeps the frame of a live handle of kind M, and of
+   what is left of a handle after free *)
+Lemma step_frame : forall t h o st h' M,
+  (hmagic h = M /\ foreign_to M o) \/ hmagic h = 0%N ->
+  step t h o = RRet st h' -> frame h h'.
 Proof.
-  intros t h r mask Hf Hc Hb Hm Hs. unfold dw_free.
-  rewrite (wc_accepted _ _ _ _ _ Hf Hm WDM_is_handle); [|rewrite Hs; apply valid_fatal].
-  unfold dw_close. rewrite (with_check_illegal _ _ _ _ _ _ Hc); [| rewrite Hm; apply WDM_is_handle | exact Hm |].
-  - simpl. rewrite <- Hs. rewrite set_state_same. reflexivity.
-  - rewrite Hs. rewrite N.land_comm. apply has_bit_false. exact Hb.
+  intros t h o st h' M Hk H.
+  assert (Hgen : forall m, op_kind o = Some m -> (hmagic h = M /\ m <> M) \/ hmagic h = 0%N).
+  { intros m Ho. destruct Hk as [[Hm Hf]|Hd]; [|right; exact Hd].
+    left. split; [exact Hm|]. unfold foreign_to in Hf. rewrite Ho in Hf. exact Hf. }
+  destruct o; simpl in H;
+    try (match goal with
+         | H : ?f _ = RRet _ _ |- _ => idtac
+         end);
+    try (eapply wc_foreign; [apply Hgen; reflexivity|exact H]; fail).
+  - eapply query_frame; eauto.
+  - inversion H. apply frame_refl.
+  - unfold op_fail in H. inversion H. apply frame_fatal.
+  - eapply pair_frame; eauto.
+  - eapply open_memory_foreign; [apply Hgen; reflexivity|exact H].
+  - unfold rd_read_data in H. apply read_data_loop_frame in H. eapply frame_trans; [apply forget_stale_frame|exact H].
+  - unfold rd_read_data_obs in H. destruct reach.
+    + change (op_query t "_archive_read_data_block" magic h r = RRet st h') in H. eapply query_frame; eauto.
+    + inversion H. apply frame_refl.
+Qed.
+
+(* ------------------------------------------------------------------ writer: the client is closed
+   exactly as often as it was opened, whatever the program; nothing stays open after free *)
+Definition wbal (h : handle) : Prop :=
+  w_opens (wr h) = (w_closes (wr h) + (if (w_filter (wr h) =? 1)%N then 1 else 0))%N.
+Definition w_alive (h : handle) : Prop :=
+  hmagic h = WM /\ wbal h /\ valid_state (hstate h) /\
+  ((hstate h = ARCHIVE_STATE_NEW \/ hstate h = ARCHIVE_STATE_CLOSED) -> w_filter (wr h) <> 1%N).
+Definition w_released (h : handle) : Prop :=
+  hmagic h = 0%N /\ w_filter (wr h) = 0%N /\ w_closes (wr h) = w_opens (wr h).
+Definition WP (h : handle) : Prop := w_alive h \/ w_released h.
+
+Lemma not_closed_fatal : ARCHIVE_STATE_FATAL <> ARCHIVE_STATE_CLOSED. Proof. intro H; vm_compute in H; discriminate. Qed.
+Lemma not_closed_header : ARCHIVE_STATE_HEADER <> ARCHIVE_STATE_CLOSED. Proof. intro H; vm_compute in H; discriminate. Qed.
+Lemma not_closed_data : ARCHIVE_STATE_DATA <> ARCHIVE_STATE_CLOSED. Proof. intro H; vm_compute in H; discriminate. Qed.
+
+(* same client bookkeeping; the state is unchanged or one of FATAL / HEADER / DATA *)
+Lemma w_move : forall h h', w_alive h -> hmagic h' = hmagic h ->
+  w_filter (wr h') = w_filter (wr h) -> w_opens (wr h') = w_opens (wr h) -> w_closes (wr h') = w_closes (wr h) ->
+  (hstate h' = hstate h \/ hstate h' = ARCHIVE_STATE_FATAL \/ hstate h' = ARCHIVE_STATE_HEADER \/
+   hstate h' = ARCHIVE_STATE_DATA) -> w_alive h'.
+Proof.
+  intros h h' [Hm [Hb [Hv Hj]]] H1 H2 H3 H4 H5. unfold w_alive, wbal in *.
+  rewrite H1, H2, H3, H4. split; [exact Hm|]. split; [exact Hb|]. split.
+  - destruct H5 as [H5|[H5|[H5|H5]]]; rewrite H5; [exact Hv|apply valid_fatal|apply valid_header|apply valid_data].
+  - intro Hn. destruct H5 as [H5|[H5|[H5|H5]]]; rewrite H5 in Hn.
+    + apply Hj; exact Hn.
+    + exfalso. destruct Hn as [Hn|Hn]; [apply not_new_fatal|apply not_closed_fatal]; exact Hn.
+    + exfalso. destruct Hn as [Hn|Hn]; [apply not_new_header|apply not_closed_header]; exact Hn.
+    + exfalso. destruct Hn as [Hn|Hn]; [apply not_new_data|apply not_closed_data]; exact Hn.
+Qed.
+
+Lemma w_frame : forall h h', w_alive h -> frame h h' -> w_alive h'.
+Proof.
+  intros h h' Ha [A [B [_ [_ C]]]]. eapply w_move; eauto; try (rewrite B; reflexivity).
+  destruct C as [C|C]; [left; exact C|right; left; exact C].
+Qed.
+
+Lemma w_released_frame : forall h h', w_released h -> frame h h' -> w_released h'.
+Proof. intros h h' [A [B C]] [F1 [F2 _]]. unfold w_released. rewrite F1, F2. tauto. Qed.
+
+Lemma wr_set_format_alive : forall t f h r st h', w_alive h -> wr_set_format t f h r = RRet st h' -> w_alive h'.
+Proof.
+  intros t f h r st h' Ha H. unfold wr_set_format in H. apply with_check_ret in H.
+  destruct H as [[_ Hh]|[_ [_ Hb]]].
+  - subst. eapply w_frame; [exact Ha|apply frame_fatal].
+  - inversion Hb. subst. destruct (r =? ARCHIVE_OK); [|exact Ha]. eapply w_move; eauto.
+Qed.
+
+Lemma wr_open_alive : forall t h a b st h', wopen_only_new t = true -> w_alive h ->
+  wr_open t h a b = RRet st h' -> w_alive h'.
+Proof.
+  intros t h a b st h' Ht Ha H. unfold wr_open in H. apply with_check_ret in H.
+  destruct H as [[_ Hh]|[_ [[mask [Hsite Hl]] Hb]]].
+  - subst. eapply w_frame; [exact Ha|apply frame_fatal].
+  - unfold wopen_only_new in Ht. rewrite Hsite in Ht. apply N.eqb_eq in Ht. subst mask.
+    destruct Ha as [Hm [Hbal [Hv Hj]]]. apply (new_only _ Hv) in Hl.
+    assert (Hf : w_filter (wr h) <> 1%N) by (apply Hj; left; exact Hl).
+    unfold wbal in Hbal. apply N.eqb_neq in Hf. rewrite Hf in Hbal.
+    destruct (a <? ARCHIVE_WARN).
+    + inversion Hb. subst. unfold w_alive, wbal. simpl. split; [exact Hm|]. split; [lia|]. split; [exact Hv|].
+      intros _. discriminate.
+    + inversion Hb. subst. unfold w_alive, wbal. simpl. split; [exact Hm|]. split.
+      * destruct (a =? ARCHIVE_OK); simpl; lia.
+      * split; [apply valid_header|]. intros [Hx|Hx]; exfalso; [apply not_new_header|apply not_closed_header]; exact Hx.
+Qed.
+
+Lemma wr_finish_entry_alive : forall t h r st h', w_alive h -> wr_finish_entry t h r = RRet st h' -> w_alive h'.
+Proof.
+  intros t h r st h' Ha H. unfold wr_finish_entry in H. apply with_check_ret in H.
+  destruct H as [[_ Hh]|[_ [_ Hb]]].
+  - subst. eapply w_frame; [exact Ha|apply frame_fatal].
+  - inversion Hb. subst. eapply w_move; eauto. right. right. left. reflexivity.
+Qed.
+
+Lemma wr_header_alive : forall t h a b c st h', w_alive h -> wr_header t h a b c = RRet st h' -> w_alive h'.
+Proof.
+  intros t h a b c st h' Ha H. unfold wr_header in H. apply with_check_ret in H.
+  destruct H as [[_ Hh]|[_ [_ Hb]]].
+  - subst. eapply w_frame; [exact Ha|apply frame_fatal].
+  - destruct (negb (w_fmt (wr h))).
+    { inversion Hb. subst. eapply w_frame; [exact Ha|apply frame_fatal]. }
+    unfold bind in Hb. destruct (wr_finish_entry t h a) as [| |s1 h1] eqn:E; try discriminate.
+    apply wr_finish_entry_alive in E; [|exact Ha].
+    assert (F : w_alive (set_state h1 ARCHIVE_STATE_FATAL)) by (eapply w_frame; [exact E|apply frame_fatal]).
+    assert (G : w_alive (set_state h1 ARCHIVE_STATE_DATA)) by (eapply w_move; eauto; right; right; right; reflexivity).
+    destruct (s1 =? ARCHIVE_FATAL); [inversion Hb; subst; exact F|].
+    destruct ((s1 <? ARCHIVE_OK) && negb (s1 =? ARCHIVE_WARN)); [inversion Hb; subst; exact E|].
+    destruct (b =? ARCHIVE_FAILED); [inversion Hb; subst; exact E|].
+    destruct (b =? ARCHIVE_FATAL); [inversion Hb; subst; exact F|].
+    destruct (c =? ARCHIVE_FAILED); [inversion Hb; subst; exact E|].
+    destruct (c =? ARCHIVE_FATAL); [inversion Hb; subst; exact F|].
+    inversion Hb. subst. exact G.
+Qed.
+
+Lemma wr_data_alive : forall t h r st h', w_alive h -> wr_data t h r = RRet st h' -> w_alive h'.
+Proof.
+  intros t h r st h' Ha H. unfold wr_data in H. apply with_check_ret in H. destruct H as [[_ Hh]|[_ [_ Hb]]].
+  - subst. eapply w_frame; [exact Ha|apply frame_fatal].
+  - inversion Hb. subst. exact Ha.
+Qed.
+
+(* what close does to the bookkeeping, once its check has passed *)
+Lemma wr_close_body_alive : forall h a b c st h', w_alive h ->
+  (if (hstate h =? ARCHIVE_STATE_NEW)%N || (hstate h =? ARCHIVE_STATE_CLOSED)%N then RRet ARCHIVE_OK h
+   else
+     let r := if (hstate h =? ARCHIVE_STATE_DATA)%N && w_fmt (wr h) then a else ARCHIVE_OK in
+     let r := if w_fmt (wr h) then zlower b r else r in
+     let '(r1, h1) := wr_filters_close h c in
+     RRet (zlower r1 r) (if (hstate h1 =? ARCHIVE_STATE_FATAL)%N then h1 else set_state h1 ARCHIVE_STATE_CLOSED))
+  = RRet st h' ->
+  w_alive h' /\ (hstate h <> ARCHIVE_STATE_FATAL -> hstate h' = ARCHIVE_STATE_NEW \/ hstate h' = ARCHIVE_STATE_CLOSED).
+Proof.
+  intros h a b c st h' Ha H.
+  destruct ((hstate h =? ARCHIVE_STATE_NEW)%N || (hstate h =? ARCHIVE_STATE_CLOSED)%N) eqn:E.
+  - inversion H. subst. split; [exact Ha|]. intros _. apply orb_true_iff in E.
+    destruct E as [E|E]; apply N.eqb_eq in E; tauto.
+  - simpl in H. destruct Ha as [Hm [Hbal [Hv Hj]]]. unfold wbal in Hbal. unfold wr_filters_close in H.
+    destruct (w_filter (wr h) =? 1)%N eqn:Ef; simpl in H.
+    + destruct (hstate h =? ARCHIVE_STATE_FATAL)%N eqn:E3; inversion H; subst; clear H.
+      * apply N.eqb_eq in E3. split.
+        -- unfold w_alive, wbal. simpl. split; [exact Hm|]. split; [destruct (c =? ARCHIVE_OK); simpl; lia|].
+           split; [exact Hv|]. rewrite E3. intros [Hx|Hx]; exfalso; [apply not_new_fatal|apply not_closed_fatal]; exact Hx.
+        -- intro Hx. contradiction.
+      * split.
+        -- unfold w_alive, wbal. simpl. split; [exact Hm|]. split; [destruct (c =? ARCHIVE_OK); simpl; lia|].
+           split; [apply valid_closed|]. intros _. destruct (c =? ARCHIVE_OK); discriminate.
+        -- intros _. right. reflexivity.
+    + destruct (hstate h =? ARCHIVE_STATE_FATAL)%N eqn:E3; inversion H; subst; clear H.
+      * apply N.eqb_eq in E3. split; [|intro Hx; contradiction].
+        unfold w_alive, wbal. rewrite Ef. split; [exact Hm|]. split; [exact Hbal|]. split; [exact Hv|exact Hj].
+      * split; [|intros _; right; reflexivity].
+        unfold w_alive, wbal. simpl. rewrite Ef. split; [exact Hm|]. split; [exact Hbal|]. split; [apply valid_closed|].
+        intros _. apply N.eqb_neq. exact Ef.
+Qed.
+
+Lemma wr_close_alive : forall t h a b c st h', w_alive h -> wr_close t h a b c = RRet st h' -> w_alive h'.
+Proof.
+  intros t h a b c st h' Ha H. unfold wr_close in H. apply with_check_ret in H.
+  destruct H as [[_ Hh]|[_ [_ Hb]]].
+  - subst. eapply w_frame; [exact Ha|apply frame_fatal].
+  - eapply wr_close_body_alive in Hb; [tauto|exact Ha].
+Qed.
+
+Lemma wr_filters_free_released : forall h, hmagic h = WM -> wbal h -> w_filter (wr h) <> 1%N ->
+  w_released (kill (wr_filters_free h)).
+Proof.
+  intros h Hm Hb Hf. unfold wbal in Hb. apply N.eqb_neq in Hf. rewrite Hf in Hb.
+  unfold w_released, kill, wr_filters_free. destruct (w_filter (wr h) =? 0)%N eqn:E0; simpl.
+  - apply N.eqb_eq in E0. split; [reflexivity|]. split; [exact E0|lia].
+  - split; [reflexivity|]. split; [reflexivity|lia].
+Qed.
+
+Lemma wr_free_WP : forall t h a b c d st h',
+  site_accepts_all t ("_archive_write_close"%string, WM) = true ->
+  w_alive h -> wr_free t h a b c d = RRet st h' -> WP h'.
+Proof.
+  intros t h a b c d st h' Hc Ha H. unfold wr_free in H. apply with_check_ret in H.
+  destruct H as [[_ Hh]|[_ [_ Hb]]].
+  - subst. left. eapply w_frame; [exact Ha|apply frame_fatal].
+  - right. pose proof Ha as [Hm [Hbal [Hv Hj]]].
+    destruct (hstate h =? ARCHIVE_STATE_FATAL)%N eqn:E; simpl in Hb.
+    + unfold wr_filters_close in Hb. unfold wbal in Hbal.
+      destruct (w_filter (wr h) =? 1)%N eqn:Ef; inversion Hb; subst; clear Hb.
+      * apply wr_filters_free_released; [exact Hm| |].
+        -- unfold wbal. simpl. destruct (c =? ARCHIVE_OK); simpl; lia.
+        -- simpl. destruct (c =? ARCHIVE_OK); discriminate.
+      * apply wr_filters_free_released; [exact Hm| |].
+        -- unfold wbal. rewrite Ef. exact Hbal.
+        -- apply N.eqb_neq. exact Ef.
+    + unfold bind in Hb. unfold wr_close in Hb.
+      rewrite (wc_accepted _ _ _ _ _ Hc Hm WM_is_handle Hv) in Hb.
+      match type of Hb with
+      | match ?X with _ => _ end = _ => destruct X as [| |s1 h1] eqn:Eb; try discriminate
+      end.
+      apply wr_close_body_alive in Eb; [|exact Ha]. destruct Eb as [[Hm1 [Hb1 [Hv1 Hj1]]] Hs1].
+      apply N.eqb_neq in E. specialize (Hs1 E). inversion Hb. subst.
+      apply wr_filters_free_released; [exact Hm1|exact Hb1|apply Hj1; exact Hs1].
+Qed.
+
+Lemma new_write_alive : w_alive new_write.
+Proof.
+  unfold w_alive, wbal, new_write. simpl. split; [reflexivity|]. split; [reflexivity|]. split; [apply valid_new|].
+  intros _. discriminate.
+Qed.
+
+Lemma magic_WM_ne : RM <> WM /\ RDM <> WM /\ WDM <> WM /\ ARCHIVE_MATCH_MAGIC <> WM.
+Proof. repeat split; intro H; vm_compute in H; discriminate. Qed.
+
+Lemma step_WP : forall t, wopen_only_new t = true ->
+  site_accepts_all t ("_archive_write_close"%string, WM) = true ->
+  forall h o st h', WP h -> step t h o = RRet st h' -> WP h'.
+Proof.
+  intros t Ht Hc h o st h' [Ha|Hr] H.
+  - destruct (magic_WM_ne) as [N1 [N2 [N3 N4]]]. pose proof Ha as [Hm _].
+    assert (Hfor : foreign_to WM o -> WP h').
+    { intro Hf. left. eapply w_frame; [exact Ha|]. eapply (step_frame t h o st h' WM); [left; split; assumption|exact H]. }
+    destruct o; try (apply Hfor; unfold foreign_to; simpl; first [exact I|assumption]); simpl in H.
+    + left. eapply wr_set_format_alive; eauto.
+    + left. eapply wr_open_alive; eauto.
+    + left. unfold wr_open_memory in H. apply with_check_ret in H. destruct H as [[_ Hh]|[_ [_ Hb]]].
+      * subst. eapply w_frame; [exact Ha|apply frame_fatal].
+      * eapply wr_open_alive; eauto.
+    + left. eapply wr_header_alive; eauto.
+    + left. eapply wr_data_alive; eauto.
+    + left. eapply wr_finish_entry_alive; eauto.
+    + left. eapply wr_close_alive; eauto.
+    + eapply wr_free_WP; eauto.
+  - right. pose proof Hr as [Hm _]. eapply w_released_frame; [exact Hr|].
+    eapply (step_frame t h o st h' WM); [right; exact Hm|exact H].
+Qed.
+
+Lemma run_WP : forall t, wopen_only_new t = true ->
+  site_accepts_all t ("_archive_write_close"%string, WM) = true ->
+  forall ops h, WP h -> Forall (fun x : op * Z * handle => WP (snd x)) (run_ops t h ops).
+Proof.
+  intros t Ht Hc ops. induction ops as [|o r IH]; intros h Hp; simpl; [constructor|].
+  destruct (step t h o) as [| |st h'] eqn:E.
+  - constructor; [exact Hp|constructor].
+  - constructor; [exact Hp|constructor].
+  - pose proof (step_WP t Ht Hc h o st h' Hp E) as Hp'. constructor; [exact Hp'|apply IH; exact Hp'].
+Qed.
+
+Theorem writer_releases_exactly_once : forall t, wopen_only_new t = true ->
+  site_accepts_all t ("_archive_write_close"%string, WM) = true -> forall ops,
+  Forall (fun x : op * Z * handle =>
+            let h := snd x in
+            (hmagic h = 0%N -> w_filter (wr h) = 0%N /\ w_closes (wr h) = w_opens (wr h)) /\
+            (w_closes (wr h) <= w_opens (wr h))%N)
+         (run_ops t new_write ops).
+Proof.
+  intros t Ht Hc ops. pose proof (run_WP t Ht Hc ops new_write (or_introl new_write_alive)) as H.
+  eapply Forall_impl; [|exact H]. intros [[o st] h] Hp. simpl in *. destruct Hp as [[Hm [Hb _]]|[Hm [Hf Hcl]]].
+  - split.
+    + intro H0. exfalso. rewrite Hm in H0. vm_compute in H0. discriminate.
+    + unfold wbal in Hb. destruct (w_filter (wr h) =? 1)%N; lia.
+  - split; [intros _; split; assumption|lia].
 Qed.
